@@ -58,6 +58,7 @@ class C05(Check):
         "user log_likelihood / log_prior / proposal log_prob -> uninterpreted functions L, PI, Q of the coordinates (R sort); arbitrary FP values incl. +-inf/NaN (F sort)",
         "preconditioning transform -> stub returning arbitrary symbolic (x, log|det dx/dz|); additionally the real IdentityTransform and CompositeTransform (logit / probit / periodic)",
         "FP exp/log are not involved in these obligations",
+        "immutable configurations: the symbolic arrays refuse item assignment and offer x.at[idx].set(v), the JAX discipline that utils.update_at_indices supports",
     ]
     outside = [
         "flow-based preconditioning's neural map (covered by the stub transform: the formula may not depend on which transform it is)",
@@ -77,6 +78,10 @@ class C05(Check):
         for s in SAMPLERS:
             for bits in (64, 32):
                 out.append({"name": f"fp{bits}-{s}", "kind": "fp", "sampler": s, "bits": bits, "batch": 2, "d": 1})
+        # the same special-value clauses with immutable arrays (the JAX
+        # discipline: item assignment raises, updates go through x.at[...].set)
+        for s in ("SMCSampler", "MiniPCNSMC", "BlackJAXSMC"):
+            out.append({"name": f"fp64-{s}-immutable", "kind": "fp", "sampler": s, "bits": 64, "batch": 2, "d": 1, "immutable": True})
         return out
 
     def ctx_for(self, cfg, seed):
@@ -175,6 +180,8 @@ class C05(Check):
         sname, b, d = cfg["sampler"], cfg["batch"], cfg["d"]
 
         def h(ctx):
+            if cfg.get("immutable"):
+                ctx.notes["immutable_arrays"] = True
             F = FpFns(ctx)
             Z = lambda t: z3.Not(z3.Or(z3.fpIsNaN(t), z3.fpIsInf(t)))  # noqa: E731
 
@@ -276,28 +283,39 @@ def replay_c05(cex):
         dt = np.float64 if cfg["bits"] == 64 else np.float32
         L, P, Q, LJ = (a.astype(dt) for a in (L, P, Q, LJ))
         beta = dt(fv("beta", 1.0))
+        xpr = np
+        if cfg.get("immutable"):
+            # immutable arrays: replay on JAX
+            import jax
+
+            jax.config.update("jax_enable_x64", True)
+            import jax.numpy as jnp
+
+            xpr = jnp
+            L, P, Q, LJ = (jnp.asarray(a) for a in (L, P, Q, LJ))
 
         class Flow:
             def log_prob(self, x):
-                return Q.copy()
+                return xpr.asarray(Q)
 
         class Tr:
-            xp = np
+            xp = xpr
             dtype = None
 
             def inverse(self, z):
-                return z, LJ.copy()
+                return z, xpr.asarray(LJ)
 
         smp = S(
-            log_likelihood=lambda s: L.copy(),
-            log_prior=lambda s: P.copy(),
+            log_likelihood=lambda s: xpr.asarray(L),
+            log_prior=lambda s: xpr.asarray(P),
             dims=d,
             prior_flow=Flow(),
-            xp=np,
+            xp=xpr,
             dtype=dt,
             preconditioning_transform=Tr(),
         )
-        z = np.zeros((b, d), dtype=dt)
+        z = xpr.zeros((b, d), dtype=dt)
+        L, P, Q, LJ = (np.asarray(a) for a in (L, P, Q, LJ))
         with np.errstate(all="ignore"):
             out = np.asarray(smp.log_prob(z) if sname == "MCMCSampler" else smp.log_prob(z, beta))
             for i in range(b):
